@@ -701,9 +701,9 @@ class Emit:
     def fx(self, e):
         k = e[0]
         if k == "call":
-            return "FCall %d" % self.index[e[1]]
+            return "C %d" % self.index[e[1]]
         if k == "term":
-            return "FCall %d" % self.term(e[1], e[2])
+            return "C %d" % self.term(e[1], e[2])
         if k == "lex":
             return "FPrim %d" % self.prim(("lex", e[1]))
         if k == "lexleaf":
@@ -791,25 +791,62 @@ def generate():
     for (helper, text), idx in sorted(em.extra.items(), key=lambda kv: kv[1]):
         tag = em.prim(("tag", text))
         if helper == "symbol":
-            b = "FTmpl [FLeaf (FPrim %d); FMany0 (FCall %d)] (TN %d [TB 0; TB 1])" % (tag, wsi, ksym)
+            b = "FTmpl [FLeaf (FPrim %d); FMany0 (C %d)] (TN %d [TB 0; TB 1])" % (tag, wsi, ksym)
         elif helper == "symbol_exact":
             b = "FTmpl [FLeaf (FPrim %d)] (TN %d [TB 0])" % (tag, ksym)
         else:
             nn = em.prim(("none_of", "AZ09_"))
-            b = ("FTmpl [FLeaf (FAlt [FSeq [FPrim %d; FEof]; FSeq [FPrim %d; FPeek (FPrim %d)]]); FMany0 (FCall %d)] (TN %d [TB 0; TB 1])"
+            b = ("FTmpl [FLeaf (FAlt [FSeq [FPrim %d; FEof]; FSeq [FPrim %d; FPeek (FPrim %d)]]); FMany0 (C %d)] (TN %d [TB 0; TB 1])"
                  % (tag, tag, nn, wsi, kkw))
         lines.append("  mkProd false false (%s)" % b)
+    # non-nullability certificate: greatest set of productions whose bodies surely consume (Nom/NonNull.v re-checks it)
+    def nn_py(e, cert):
+        k = e[0]
+        if k == "call":
+            return e[1] in cert
+        if k in ("term", "lex"):
+            return True
+        if k in ("lexleaf", "many1"):
+            return nn_py(e[1], cert)
+        if k == "seq":
+            return any(nn_py(x, cert) for x in e[1])
+        if k == "tmpl":
+            return any(nn_py(x, cert) for x in e[1])
+        if k == "alt":
+            return all(nn_py(x, cert) for x in e[1])
+        if k == "manytill":
+            return nn_py(e[2], cert)
+        if k == "wrap":
+            return nn_py(e[3], cert)
+        if k == "if":
+            return nn_py(e[2], cert) and nn_py(e[3], cert)
+        return False
+    cert = {f["name"] for f, _ in bodies}
+    changed_c = True
+    while changed_c:
+        changed_c = False
+        for f, e in bodies:
+            if f["name"] in cert and not nn_py(e, cert):
+                cert.discard(f["name"]); changed_c = True
+    cert_idx = sorted(em.index[n] for n in cert) + sorted(em.extra.values())
     text = ["(* GENERATED by gen/svx_grammar.py from /repo/sv-parser-parser/src -- do not edit *)",
             "From SV Require Import Peg.", "Local Open Scope nat_scope.",
+            "(* production indices are written in binary: a unary numeral of that size per call is slow to read *)",
+            "Notation \"'C' n\" := (FCall (N.to_nat n%N)) (at level 9, n at level 9, only parsing).",
             "Definition grammar : list prod := [", ";\n".join(lines), "]."]
-    for start in ("source_text", "source_text_incomplete", "library_text", "library_text_incomplete", "preprocessor_text"):
-        text.append("Definition start_%s : nat := %d." % (start, em.index[start]))
+    for start in ("source_text", "source_text_incomplete", "library_text", "library_text_incomplete", "preprocessor_text",
+                  "description", "library_description", "white_space", "timeunits_declaration"):
+        text.append("Definition start_%s : nat := Eval vm_compute in N.to_nat %d%%N." % (start, em.index[start]))
+    cs = set(cert_idx)
+    text.append("Definition nonnull_cert : list bool := [%s]." % "; ".join("true" if i in cs else "false" for i in range(len(em.index) + len(em.extra))))
+    text.append("Definition all_prims : list N := map N.of_nat (seq 0 %d)." % len(em.prims))
     text = "\n".join(text) + "\n"
     facts = {"functions": len(fs), "synthetic_terminals": len(em.extra), "primitives": len(em.prims), "how": how,
              "bad_spots": sorted(set(nm.bad))[:20], "n_bad": text.count("FBad"),
              "override_hashes": {f["name"]: body_hash(f) for f in fs if f["name"] in overrides},
              "lexer_hashes": {f["name"]: body_hash(f) for f in fs if f["ret"] in ("Locate", "Span")},
-             "hash": hashlib.sha256(text.encode()).hexdigest()[:16], "index": em.index, "kinds": kinds}
+             "hash": hashlib.sha256(text.encode()).hexdigest()[:16], "index": em.index, "kinds": kinds,
+             "nonnull": len(cert), "nullable": sorted(set(em.index) - cert)[:40]}
     return text, facts
 
 
